@@ -55,6 +55,16 @@ def gen_cases(tier, rng):
             wmax = min(600.0, 0.5 * min(E))
             mode = {"site": int(rng.integers(N)), "omega": r3(rng.uniform(min(100.0, 0.5 * wmax), wmax)), "hr": r3(rng.uniform(0.05, 1.0)), "n0": 2, "n1": 2}
         cases.append({"cls": "aggregate", "sys": s, "T": T, "with_bath": with_bath, "mode": mode, "cost": 1 + N})
+    # site-dependent baths whose reorganisation energies re-order the relaxed site energies (E_n - lambda_n), at zero and low temperature
+    for i in range(6 if tier == "quick" else 40):
+        N = 2 + i % 2
+        s = build.gen_system(rng, N=N, Nt=100, dt=1.0, shared_bath=False, jmax=100.0, lam=(5.0, 40.0))
+        e0 = r3(rng.uniform(10000, 15000))
+        s["E"] = [e0 + 60.0 * k for k in range(N)]
+        # the highest bare site relaxes the most: lowest relaxed energy on the last site
+        for k in range(N):
+            s["bath"][k] = dict(s["bath"][k], reorg=r3(10.0 + (k * rng.uniform(150.0, 260.0))))
+        cases.append({"cls": "aggregate", "sys": s, "T": [0.0, 0.0, 1e-3, 5.0, 77.0, 0.0][i % 6], "with_bath": True, "mode": None, "cost": 2})
     # exactly degenerate relaxed site energies at T = 0 (shared bath): the listed known finding
     for i in range(2 if tier == "quick" else 8):
         N = 2 + i % 2
